@@ -372,6 +372,7 @@ def mutate_mcmc(ctx, blobs):
 
 
 def run(ctx):
+    ctx.weak_ids |= set(['._propose/'])     # helper-level contracts: arbitrated by the property-level native contract when they fail
     for blobs in (False, True):
         for scheme in ("mult", "syst"):
             resampler(ctx, scheme, blobs)
